@@ -47,6 +47,22 @@ func TestVerifC13(t *testing.T) {
 		w.finalLooks()
 		w.restart()
 		w.finalLooks()
+		// the chain moves on without confirming anything: every contract of this history (none was
+		// ever confirmed) is now rejected, renewals included.  A renewed contract stays renewed:
+		// it still refuses revisions and further renewals, whatever became of its successor.
+		if w.rejectUnconfirmed() {
+			for _, id := range w.order2 {
+				if w.supers[id] {
+					w.predecessorRefuses(id, true)
+				}
+			}
+			for _, id := range w.order1 {
+				if w.supers[id] {
+					w.predecessorRefuses(id, false)
+				}
+			}
+			w.finalLooks()
+		}
 		em.EndCase(w.accepted > 0)
 		w.close()
 	}
